@@ -7,6 +7,8 @@
 
 use crate::model::cmdgen::{gen_cmd, Cmd, GenCfg, ALL_FAMS};
 use crate::model::wire::{parse_cmd, show_bytes, show_cmd, R};
+use crate::simkit::clock::SimClock;
+use crate::simkit::rt;
 use crate::simkit::runner::{Property, RunCtx, RunReport, Tier};
 use crate::simkit::tape::{fnv, Src};
 use redis_sim::redis::{Command, CommandExecutor, Value};
@@ -157,6 +159,92 @@ impl C17 {
     }
 }
 
+impl C17 {
+    /// The sharded server (2, 4 or 16 real shard actors) as the system under test: where a command's keys live on
+    /// different shards the server itself has to put things back when it answers an error.
+    fn run_sharded(&self, src: &mut Src, ctx: &RunCtx) -> RunReport {
+        use crate::props::c03::{dump, send, shard_state, Path};
+        let mut rep = RunReport::default();
+        rep.probe("sharded_server_run");
+        let n = *src.pick(&[4usize, 2, 16]);
+        let mut g = GenCfg::swarm(src, ALL_FAMS, 6);
+        g.edgy = g.edgy || src.chance(1, 2);
+        let bb = |s: &str| s.as_bytes().to_vec();
+        let mut cmds: Vec<(Cmd, u64)> = Vec::new();
+        for i in 0..3 {
+            if !src.chance(2, 3) { continue; }
+            let k = bb(&format!("k{}", i));
+            match src.below(5) {
+                0 => cmds.push((vec![bb("SET"), k.clone(), bb("16")], 0)),
+                1 => { let mut c = vec![bb("RPUSH"), k.clone(), bb("a")]; if src.chance(1, 2) { c.push(bb("b")); } cmds.push((c, 0)); }
+                2 => cmds.push((vec![bb("SADD"), k.clone(), bb("a")], 0)),
+                3 => cmds.push((vec![bb("HSET"), k.clone(), bb("f"), bb("1")], 0)),
+                _ => cmds.push((vec![bb("ZADD"), k.clone(), bb("1"), bb("a")], 0)),
+            }
+            if src.chance(1, 2) { cmds.push((vec![bb("PEXPIRE"), k, bb("10000")], 0)); }
+        }
+        let nprelude = cmds.len();
+        let steps = src.list(24, 15, 16, |s| (s.below(10), s.below(6)));
+        for (kind, adv) in steps {
+            // a good share of two-key commands over the prelude's keys: where the keys live on different shards, the
+            // server itself has to undo what it did on one shard when the other refuses
+            let c = if kind >= 7 {
+                let (i, j) = (src.idx(3), src.idx(3));
+                let (ki, kj) = (bb(&format!("k{}", i)), bb(&format!("k{}", if i == j { (j + 1) % 3 } else { j })));
+                match src.below(7) {
+                    0 | 1 => vec![bb("RPOPLPUSH"), ki, kj],
+                    2 | 3 => vec![bb("LMOVE"), ki, kj, bb(["LEFT", "RIGHT"][src.idx(2)]), bb(["LEFT", "RIGHT"][src.idx(2)])],
+                    4 => vec![bb("RENAMENX"), ki, kj],
+                    5 => vec![bb("SMOVE"), ki, kj, bb("a")],
+                    _ => vec![bb("MSETNX"), ki, bb("1"), kj, bb("2")],
+                }
+            } else if kind < 4 { gen_cmd(src, &mut g) } else { extra_cmd(src, &mut g) };
+            let a = if src.chance(1, 5) { [1u64, 999, 1000, 1500, 10_000, 100_000][adv as usize] } else { 0 };
+            cmds.push((c, a));
+        }
+        let trace = ctx.trace;
+        let seed = src.u64_any();
+        let cmds2 = cmds.clone();
+        let (viol, log, evals, hits): (Option<(String, String)>, Vec<String>, u64, u64) = rt::block_on(seed, async move {
+            let clock = SimClock::new(1_700_000_000_000);
+            let st = shard_state(n, &clock);
+            let mut log = Vec::new();
+            let (mut evals, mut hits) = (0u64, 0u64);
+            for (i, (c, adv)) in cmds2.iter().enumerate() {
+                if *adv > 0 { clock.advance(*adv); }
+                let parsed = parse_cmd(c);
+                let read_only = parsed.as_ref().map(|p| p.is_read_only()).unwrap_or(false);
+                if i < nprelude { let _ = send(&st, c, Path::Generic).await; continue; }
+                let before = dump(&st).await;
+                let r = send(&st, c, Path::Generic).await;
+                let after = dump(&st).await;
+                if trace { log.push(format!("{} -> {}", show_cmd(c), r.show())); }
+                if r.is_err() || read_only {
+                    evals += 1;
+                    if c.iter().skip(1).any(|a| before.contains_key(a)) { hits += 1; }
+                    if before != after {
+                        let k = before.keys().chain(after.keys()).find(|k| before.get(*k) != after.get(*k)).cloned().unwrap_or_default();
+                        let name = String::from_utf8_lossy(&c[0]).to_uppercase();
+                        let key = if r.is_err() { format!("C17/error-reply-but-state-changed/{}", name) } else { format!("C17/read-only-command-changed-state/{}", name) };
+                        return (Some((key, format!("{}-shard server: {} replied {} {}but key {:?} went from {:?} to {:?}", n, show_cmd(c), r.show(), if read_only { "(classified read-only) " } else { "" }, String::from_utf8_lossy(&k), before.get(&k), after.get(&k)))), log, evals, hits);
+                    }
+                }
+            }
+            (None, log, evals, hits)
+        });
+        rep.trace = log;
+        if let Some((k, m)) = viol { rep.violate(k, m); }
+        rep.evals = evals.max(1);
+        if hits > 0 { rep.probe_n("error_reply_on_existing_key", hits); rep.nontrivial = true; }
+        let mut fp = fnv(0x5A, &[n as u8]);
+        for (c, a) in &cmds { fp = fnv(fp, show_cmd(c).as_bytes()); fp = fnv(fp, &a.to_le_bytes()); }
+        rep.fingerprint = fp;
+        if rep.nontrivial { rep.sub_fps.push(fp); }
+        rep.sample = Some(json!({"mode": "sharded server", "shards": n, "commands": cmds.iter().take(12).map(|(c, _)| show_cmd(c)).collect::<Vec<_>>()}));
+        rep
+    }
+}
+
 impl Property for C17 {
     fn id(&self) -> &'static str { "C17" }
     fn level(&self) -> &'static str { "exploration" }
@@ -166,12 +254,13 @@ impl Property for C17 {
     fn components_real(&self) -> Vec<&'static str> { vec!["redis::CommandExecutor::execute (all *_ops, script_ops with real Lua)", "Command::from_resp_zero_copy", "Command::is_read_only"] }
     fn components_stubbed(&self) -> Vec<&'static str> { vec!["no connection/shards: the executor is driven directly, as a shard actor drives it", "clock: VirtualTime set by the harness"] }
     fn assumptions(&self) -> Vec<&'static str> { vec!["multi-step scripts that write and then raise are not generated (Redis does not roll those back either); a single-call script stands for its inner command", "a key past its deadline is not part of the visible keyspace, whether or not it was evicted yet"] }
-    fn required_probes(&self) -> Vec<&'static str> { vec!["error_reply_on_existing_key", "readonly_on_existing_key", "script_call", "two_key_command", "replicated_glue_with_faulty_wal"] }
+    fn required_probes(&self) -> Vec<&'static str> { vec!["error_reply_on_existing_key", "readonly_on_existing_key", "script_call", "two_key_command", "replicated_glue_with_faulty_wal", "sharded_server_run"] }
     fn runs(&self, tier: Tier) -> u64 { match tier { Tier::Quick => 20000, Tier::Thorough => 600_000 } }
 
     fn run(&self, src: &mut Src, ctx: &RunCtx) -> RunReport {
         let mut rep = RunReport::default();
         if src.below(12) == 0 { return self.run_glue(src, ctx); }
+        if src.below(10) == 0 { return self.run_sharded(src, ctx); }
         let mut g = GenCfg::swarm(src, ALL_FAMS, 6);
         g.edgy = g.edgy || src.chance(1, 2);
         let readonly_clock = src.chance(1, 3);
